@@ -113,6 +113,16 @@ def create_machine(
     # ☝️ Step 1: Determine the Source of Business Logic
     # -------------------------------------------------------------------------
     final_logic: MachineLogic
+
+    # 🛡️ Everything below subscripts `config`. Anything but a mapping (a JSON
+    #    array, `null`, a string read from the wrong file) used to fail with a
+    #    raw AttributeError from the first `.get()`.
+    if not isinstance(config, dict):
+        raise InvalidConfigError(
+            "Machine configuration must be a dict/object, got "
+            f"'{type(config).__name__}'."
+        )
+
     if logic:
         # ✅ Path 1: Use the explicitly provided logic instance.
         # This is the most direct approach, bypassing auto-discovery.
